@@ -30,4 +30,5 @@ Theorems == (i > 0 /\ Cases[i].thm) =>
     /\ ThmSeparable(fr, c.g)
     /\ ThmOffset(fr, c.g, c.big)
     /\ c.full => (ThmInverse(fr) /\ ThmParseval(fr))
+    /\ (c.k = "inv" /\ ~c.full) => ThmParsevalPadded(fr, c.g.M, c.g.K)
 =============================================================================
